@@ -17,6 +17,7 @@ import (
 	"fmt"
 	"runtime"
 	"strings"
+	"sync"
 	"testing"
 	"time"
 
@@ -142,6 +143,15 @@ func c18run[K comparable](d *c18drv, t vc18.Type[K]) {
 		if d.take(t.Name, cfg, "crowd", -1, -1) {
 			c18crowd(d, &t, cfg, idx)
 		}
+		if !cfg.DK && cfg.Stack == "zero" {
+			for _, xi := range idx {
+				for _, yi := range idx {
+					if t.Keys[xi].K != t.Keys[yi].K && t.Keys[xi].K == t.Keys[xi].K && t.Keys[yi].K == t.Keys[yi].K && d.take(t.Name, cfg, "fault", xi, yi) {
+						c18fault(d, &t, cfg, xi, yi)
+					}
+				}
+			}
+		}
 	}
 	d.perType[t.Name] = d.res.States - before
 }
@@ -150,6 +160,9 @@ func (d *c18drv) violate(clause, step string, cost int, typ, class string, cfg c
 	phase := "pair"
 	if strings.HasPrefix(step, "crowd") {
 		phase = "crowd"
+	}
+	if strings.HasPrefix(step, "fault") {
+		phase = "fault"
 	}
 	_ = repr
 	sig := fmt.Sprintf("class=%s hash=%s dk=%v stack=%s phase=%s", class, cfg.Hash, cfg.DK, cfg.Stack, phase)
@@ -317,6 +330,105 @@ func c18pair[K comparable](d *c18drv, t *vc18.Type[K], cfg c18cfg, xi, yi int) {
 		return
 	}
 	outcome(strings.Join(log, ";"))
+}
+
+// c18Sec: a secondary tier over a Go map whose Get panics once for one key (a fault in user code).
+type c18Sec[K comparable] struct {
+	mu    sync.Mutex
+	m     map[K]int
+	armed *K
+}
+
+func (s *c18Sec[K]) Get(k K) (int, int64, int64, bool, error) {
+	s.mu.Lock()
+	defer s.mu.Unlock()
+	if s.armed != nil && *s.armed == k {
+		s.armed = nil
+		panic("c18: secondary tier fault")
+	}
+	v, ok := s.m[k]
+	return v, 1, 0, ok, nil
+}
+func (s *c18Sec[K]) Set(k K, v int, cost int64, expire int64) error {
+	s.mu.Lock()
+	defer s.mu.Unlock()
+	s.m[k] = v
+	return nil
+}
+func (s *c18Sec[K]) Delete(k K) error {
+	s.mu.Lock()
+	defer s.mu.Unlock()
+	delete(s.m, k)
+	return nil
+}
+func (s *c18Sec[K]) HandleAsyncError(error) {}
+
+// c18fault: the two-tier cache, two different keys whose values live in the secondary tier only; the
+// lookup of x faults inside the secondary tier (the caller recovers, as a request handler would);
+// afterwards y and then x are looked up: each must be answered with its own value. The shared
+// per-shard lookup record must not carry one key's answer over to the other.
+func c18fault[K comparable](d *c18drv, t *vc18.Type[K], cfg c18cfg, xi, yi int) {
+	x, y := &t.Keys[xi], &t.Keys[yi]
+	rp := c18replay{Type: t.Name, Cfg: cfg, Phase: "fault", X: xi, Y: yi, XLbl: x.Label(), YLbl: y.Label()}
+	cost := (x.Rank+y.Rank)*100 + xi + yi + 60
+	d.res.States++
+	d.res.Executions++
+	var log []string
+	fail := func(clause, what string) {
+		detail := fmt.Sprintf("two-tier cache, x = %s\ny = %s\nops: %s\nVIOLATED: %s", x.Label(), y.Label(), strings.Join(log, "; "), what)
+		d.violate(clause, "fault", cost, t.Name, t.Class, cfg, "", rp, detail)
+	}
+	sec := &c18Sec[K]{m: map[K]int{x.K: c18v1, y.K: c18v2}}
+	b := NewBuilder[K, int](1000)
+	switch cfg.Hash {
+	case "collide":
+		b.StringKey(func(K) string { return "c18-every-key-the-same" })
+	case "strkey":
+		b.StringKey(t.StrKey)
+	}
+	c, err := b.Hybrid(sec).Workers(1).Build()
+	if err != nil {
+		panic(err)
+	}
+	defer c.Close()
+	get := func(name string, k *vc18.Key[K]) (r string) {
+		vc18.Dirty(0)
+		d.res.Transitions++
+		defer func() {
+			if p := recover(); p != nil {
+				r = "panic"
+			}
+			log = append(log, fmt.Sprintf("Get(%s)=%s", name, r))
+		}()
+		v, ok, err := c.Get(k.K)
+		switch {
+		case err != nil:
+			return "error"
+		case ok:
+			return fmt.Sprint(v)
+		}
+		return "miss"
+	}
+	sec.armed = &x.K
+	log = append(log, "secondary tier armed to fault once on x")
+	g0 := get("x", x)
+	if g0 != "panic" && g0 != "error" && g0 != fmt.Sprint(c18v1) {
+		fail("distinct-alias", "the faulting Get(x) gave "+g0)
+		return
+	}
+	if g := get("y", y); g != fmt.Sprint(c18v2) {
+		fail(map[bool]string{true: "distinct-alias", false: "equal-miss"}[g == fmt.Sprint(c18v1)], "Get(y) after the recovered fault on x gave "+g+", expected y's own value 2002")
+		return
+	}
+	if g := get("x", x); g != fmt.Sprint(c18v1) {
+		fail(map[bool]string{true: "distinct-alias", false: "equal-miss"}[g == fmt.Sprint(c18v2)], "Get(x) after the recovered fault gave "+g+", expected x's own value 1001 (2002 is y's)")
+		return
+	}
+	if g := get("y", y); g != fmt.Sprint(c18v2) {
+		fail("distinct-alias", "second Get(y) gave "+g)
+		return
+	}
+	d.res.Outcome(fmt.Sprintf("%s|%s|fault|%s", t.Class, cfg, strings.Join(log, ";")))
 }
 
 // c18crowd: capacity 3, all catalogue keys competing (in the collide configurations: one shard, one
